@@ -397,7 +397,7 @@ func (g *cGraph) isNil(cv CV) bool {
 // package), an interface made from a concrete value, or tested != nil on
 // every path to at.
 func (g *cGraph) nonNil(cv CV, at *cgNode) bool {
-	cv = g.res(cv)
+	cv = g.deep(cv)
 	switch x := cv.V.(type) {
 	case *ssa.Call:
 		if callIs(x, "fmt", "", "Errorf") || callIs(x, "errors", "", "New") || callIs(x, "errors", "", "Join") {
@@ -415,8 +415,8 @@ func (g *cGraph) nonNil(cv CV, at *cgNode) bool {
 	if at != nil {
 		for _, dc := range g.domConds(at) {
 			if cmp, ok := g.decode(dc.Cond, dc.Branch); ok && cmp.Op == token.NEQ {
-				a, b := g.res(cmp.X), g.res(cmp.Y)
-				if (a == cv && isNilConst(b.V)) || (b == cv && isNilConst(a.V)) {
+				a, b := g.deep(cmp.X), g.deep(cmp.Y)
+				if (g.sameValue(a, cv) && isNilConst(b.V)) || (g.sameValue(b, cv) && isNilConst(a.V)) {
 					return true
 				}
 			}
@@ -427,15 +427,15 @@ func (g *cGraph) nonNil(cv CV, at *cgNode) bool {
 
 // knownNil: cv is nil at node at (constant, or tested == nil on every path, or a copy thereof).
 func (g *cGraph) knownNil(cv CV, at *cgNode) bool {
-	cv = g.res(cv)
+	cv = g.deep(cv)
 	if isNilConst(cv.V) {
 		return true
 	}
 	if at != nil {
 		for _, dc := range g.domConds(at) {
 			if cmp, ok := g.decode(dc.Cond, dc.Branch); ok && cmp.Op == token.EQL {
-				a, b := g.res(cmp.X), g.res(cmp.Y)
-				if (a == cv && isNilConst(b.V)) || (b == cv && isNilConst(a.V)) {
+				a, b := g.deep(cmp.X), g.deep(cmp.Y)
+				if (g.sameValue(a, cv) && isNilConst(b.V)) || (g.sameValue(b, cv) && isNilConst(a.V)) {
 					return true
 				}
 			}
@@ -1217,4 +1217,179 @@ func (pp *cgPipe) evalEnumCmp(cv CV, at *cgNode, depth int) cgTri {
 		return triF
 	}
 	return pp.evalPhiMapped(x, edges, at, depth+1, mapv)
+}
+
+// errOperands: the error-typed operands a condition tests (e of e != nil, e == X, errors.Is(e, …)).
+func (g *cGraph) errOperands(cond CV) []CV {
+	cond, _ = g.stripNot(cond, true)
+	errT := types.Universe.Lookup("error").Type()
+	var out []CV
+	if cmp, ok := g.decode(cond, true); ok {
+		for _, o := range []CV{cmp.X, cmp.Y} {
+			if !g.isNil(o) && types.Identical(o.V.Type(), errT) {
+				out = append(out, o)
+			}
+		}
+	}
+	if call, ok := cond.V.(*ssa.Call); ok && (callIs(call, "errors", "", "Is") || callIs(call, "errors", "", "As")) && len(call.Call.Args) > 0 {
+		out = append(out, CV{cond.C, call.Call.Args[0]})
+	}
+	if edges, ok := g.phiEdges(cond); ok {
+		for _, e := range edges {
+			out = append(out, g.errOperands(e.Val)...)
+		}
+	}
+	return out
+}
+
+// choiceLeaves: the values v may take (through phis, return phis and local variables), each with the branch
+// conditions under which it is chosen.
+func (g *cGraph) choiceLeaves(v CV, depth int, seen map[CV]bool) []cgLeaf {
+	v = g.res(v)
+	if depth > 10 || seen[v] {
+		return nil
+	}
+	seen[v] = true
+	if edges, ok := g.phiEdges(v); ok {
+		j := g.joinOf(v)
+		var out []cgLeaf
+		for _, e := range edges {
+			var cs []cgCond
+			if j != nil {
+				cs = g.condsOnEdge(e.Pred, j)
+			} else {
+				cs = g.domConds(e.Pred)
+			}
+			for _, l := range g.choiceLeaves(e.Val, depth+1, seen) {
+				l.Conds = append(append([]cgCond{}, l.Conds...), cs...)
+				out = append(out, l)
+			}
+		}
+		return out
+	}
+	if lv, ok := g.valuesAt(v); ok {
+		var out []cgLeaf
+		for _, l := range lv {
+			if l.Zero {
+				out = append(out, l)
+				continue
+			}
+			for _, sub := range g.choiceLeaves(l.Val, depth+1, seen) {
+				sub.Conds = append(append([]cgCond{}, sub.Conds...), l.Conds...)
+				out = append(out, sub)
+			}
+		}
+		return out
+	}
+	if vals, ok := g.loadVals(v); ok && len(vals) > 0 {
+		var out []cgLeaf
+		for _, sv := range vals {
+			n := g.nodeOfValue(g.res(sv))
+			var cs []cgCond
+			if n != nil {
+				cs = g.domConds(n)
+			}
+			for _, sub := range g.choiceLeaves(sv, depth+1, seen) {
+				sub.Conds = append(append([]cgCond{}, sub.Conds...), cs...)
+				out = append(out, sub)
+			}
+		}
+		return out
+	}
+	return []cgLeaf{{Val: v}}
+}
+
+// condOnRaw: the condition compares (a copy of) the raw count of a single Read, directly or through a counter
+// / flag that was itself updated under such a comparison.
+func (g *cGraph) condOnRaw(cond CV, nnSet map[CV]bool, depth int) bool {
+	cond, _ = g.stripNot(cond, true)
+	if depth > 4 {
+		return false
+	}
+	cmp, ok := g.decode(cond, true)
+	if !ok {
+		if edges, ok := g.phiEdges(cond); ok {
+			for _, e := range edges {
+				if g.condOnRaw(e.Val, nnSet, depth+1) {
+					return true
+				}
+			}
+		}
+		return false
+	}
+	if g.carries(cmp.X, nnSet) || g.carries(cmp.Y, nnSet) {
+		return true
+	}
+	// a counter (x == K / x >= K) whose increments happen under a test of the raw count
+	for _, o := range []CV{cmp.X, cmp.Y} {
+		o = g.res(o)
+		if _, isK := o.V.(*ssa.Const); isK {
+			continue
+		}
+		for _, lf := range g.choiceLeaves(o, 0, map[CV]bool{}) {
+			bo, isAdd := g.res(lf.Val).V.(*ssa.BinOp)
+			if !isAdd || bo.Op != token.ADD {
+				continue
+			}
+			n := g.nodeOfValue(g.res(lf.Val))
+			if n == nil {
+				continue
+			}
+			for _, dc := range g.domConds(n) {
+				c2, _ := g.stripNot(dc.Cond, true)
+				if c3, ok := g.decode(c2, true); ok && (g.carries(c3.X, nnSet) || g.carries(c3.Y, nnSet)) {
+					return true
+				}
+			}
+		}
+	}
+	return false
+}
+
+// sameValue: a and b are the same SSA value, or two loads of the same local variable that see exactly the
+// same reaching stores, one dominating the other (the variable is not assigned in between).
+func (g *cGraph) sameValue(a, b CV) bool {
+	if a == b {
+		return true
+	}
+	ua, ok1 := a.V.(*ssa.UnOp)
+	ub, ok2 := b.V.(*ssa.UnOp)
+	if !ok1 || !ok2 || ua.Op != token.MUL || ub.Op != token.MUL {
+		return false
+	}
+	ka, _, ok1 := g.memKey(CV{a.C, ua.X})
+	kb, _, ok2 := g.memKey(CV{b.C, ub.X})
+	if !ok1 || !ok2 || ka != kb {
+		return false
+	}
+	na, nb := g.nodeOf(a.C, ua), g.nodeOf(b.C, ub)
+	if na == nil || nb == nil || !(g.dominates(na, nb) || g.dominates(nb, na)) {
+		return false
+	}
+	la, ok1 := g.valuesAt(a)
+	lb, ok2 := g.valuesAt(b)
+	if !ok1 || !ok2 {
+		return false
+	}
+	set := func(ls []cgLeaf) map[CV]bool {
+		m := map[CV]bool{}
+		for _, l := range ls {
+			if l.Zero {
+				m[CV{}] = true
+			} else {
+				m[g.res(l.Val)] = true
+			}
+		}
+		return m
+	}
+	sa, sb := set(la), set(lb)
+	if len(sa) != len(sb) {
+		return false
+	}
+	for k := range sa {
+		if !sb[k] {
+			return false
+		}
+	}
+	return true
 }
